@@ -73,6 +73,15 @@ VALUE_OPS = {
     "trans_constant_two_params": "trans(as.buck 1000.0 0.3 32.0, as.constant 1 2)",
     "trans_constant_no_param": "trans(as.buck 1000.0 0.3 32.0, as.constant)",
     "trans_second_is_modifier": "trans(as.buck 1000.0 0.3 32.0, sum(as.constant 2))",
+    "buck4_rmin_below_detach": "as.buck4 1000.0 0.3 32.0 1.0 0.5 2.0",
+    "buck4_rmin_equals_detach": "as.buck4 1000.0 0.3 32.0 1.0 1.0 2.0",
+    "buck4_rmin_equals_attach": "as.buck4 1000.0 0.3 32.0 1 2 2",
+    "buck4_rmin_above_attach": "as.buck4 1000.0 0.3 32.0 1.0 2.5 2.0",
+    "buck4_breaks_reversed": "as.buck4 1000.0 0.3 32.0 2.0 1.5 1.0",
+    "number_two_dots": "as.polynomial 1.2.3",
+    "number_two_dots_in_range": "as.constant 1.0 >1.5.5 as.zero",
+    "number_overflows": "as.buck 1e999 0.3 32.0",
+    "number_overflows_negative": "as.polynomial 1.0 -1E+400",
     "spline_type_is_modifier": "spline(as.buck 1000.0 0.3 0.0 >0.8 sum(as.constant 1, as.constant 2) >1.4 as.buck 0.0 1.0 32.0)",
 }
 OTHER_OPS = [
@@ -83,7 +92,8 @@ OTHER_OPS = [
     "species_without_data", "species_data_removed", "species_key_without_dot", "species_mass_not_number", "species_number_not_integer",
     "custom_wrong_arity", "table_form_with_params", "formula_bad_signature", "formula_signature_no_paren",
     "formula_unparsable", "formula_undefined_symbol", "formula_unknown_function", "formula_calls_wrong_arity",
-    "formula_param_reserved_word", "formula_param_not_identifier",
+    "formula_param_reserved_word", "formula_param_not_identifier", "formula_params_differ_in_case",
+    "formula_labels_differ_in_case", "table_label_differs_in_case", "grid_single_row", "ini_not_text", "table_empty_data",
     "table_non_numeric", "table_xy_odd", "table_x_y_mismatch", "table_x_only", "table_y_only", "table_xy_and_x",
     "table_no_data", "table_not_finite", "table_x_not_increasing", "table_x_repeated", "table_too_short", "table_unknown_interpolation",
     "placeholder_unresolvable", "placeholder_bad_syntax", "placeholder_missing_section", "placeholder_cycle",
@@ -115,14 +125,14 @@ def _case(draw, op, light=False):
     else:
         m = draw(gen.any_model(targets, 1, 3, depth=1, tables=False,
                                pool=gen.NOT_ELEMENTS + ["Al"] if op == "species_data_removed" else None))
-    return {"model": m, "op": op, "site": draw(st.integers(0, 60)), "route": "inproc"}
+    return {"model": m, "op": op, "site": draw(st.integers(0, 60)), "route": draw(st.sampled_from(["inproc", "inproc", "main"]))}
 
 
 @st.composite
 def _valid_case(draw, spelling=None):
     if spelling is None:
         m = draw(gen.any_model(None, 1, 3, depth=2))
-        return {"model": m, "op": None, "site": 0, "route": "inproc"}
+        return {"model": m, "op": None, "site": 0, "route": draw(st.sampled_from(["inproc", "inproc", "main"]))}
     base = "setfl" if spelling.lower() == "lammps_eam_alloy" else spelling
     m = draw(gen.any_model([base if base in gen.PAIR_TARGETS or base in gen.EAM_TARGETS else "setfl"], 1, 3, depth=1))
     m["target"] = spelling
@@ -144,7 +154,7 @@ def strata(tier):
 
 def budget(tier):
     if tier == "quick":
-        return {"examples": 290}
+        return {"examples": 340}
     return {"examples": 1600, "shards": 16}
 
 
@@ -320,9 +330,35 @@ def mutate(case):
         elif op == "formula_param_not_identifier":
             pf[1][i][0] = "mutf(r, %s)" % ["a-b", "2a", "a}"][site % 3]
             pf[1][i][1] = "2.0 * exp(-r) + 1.0"
+        elif op == "formula_params_differ_in_case":
+            # exprtk symbols are case-insensitive: A and a would be one variable
+            pf[1][i][0] = "mutf(r, %s)" % ["A, a", "a, A", "Rho, rho", "a, R"][site % 4]
+            pf[1][i][1] = "2.0 * exp(-r) + 1.0"
+            for s_, j in _potdef_entries(secs):
+                if s_[1][j][1] == "mutf 2.0":
+                    s_[1][j][1] = "mutf 2.0 3.0"
+        elif op == "formula_labels_differ_in_case":
+            pf[1].insert(site % (len(pf[1]) + 1), ["MUTF(r, a)" if site % 2 else "Mutf(r, a)", "100 * a * r"])
         elif op == "formula_calls_wrong_arity":
             pf[1].append(["helperf(r, b, c)", "r + b + c"])
             pf[1][i][1] = "a * helperf(r, 1.0)"
+    elif op == "table_label_differs_in_case":
+        t = _ensure_table(secs, site)
+        secs.append(["Table-Form:MutTab" if site % 2 else "Table-Form:MUTTAB", [["x", "0.0 1.0 2.0 3.0 4.0"], ["y", "5.0 4.0 3.0 2.0 1.0"]]])
+    elif op == "grid_single_row":
+        deltab("dr"), deltab("nr"), deltab("cutoff")
+        if site % 2:
+            settab("nr", "1"), settab("cutoff", "5.0")
+        else:
+            settab("cutoff", "1.0"), settab("dr", "5.0")
+    elif op == "ini_not_text":
+        return [b"\xff\xfe", b"\x80abc\n", b"[Pair]\nA-B : as.constant \xe9\xff\n"][site % 3] + anymodel.text_of(secs).encode(), op
+    elif op == "table_empty_data":
+        t = _ensure_table(secs, site)
+        if site % 2:
+            t[1][:] = [["xy", ""]]
+        else:
+            t[1][0][1], t[1][1][1] = "", ""
     elif op.startswith("table_"):
         t = _ensure_table(secs, site)
         if op == "table_non_numeric":
@@ -393,8 +429,10 @@ def mutate(case):
 
 
 def run_outcome(text, target, route):
-    if route == "cli":
-        return anymodel.cli_outcome(text, target, [])
+    if isinstance(text, bytes) and route not in ("cli", "main"):
+        route = "main"          # a file that is not text exists only as a file
+    if route in ("cli", "main"):
+        return anymodel.cli_outcome(text, target, [], inproc=route == "main")
     return anymodel.outcome(text, target)
 
 
